@@ -49,6 +49,7 @@ type BarSpec struct {
 	ExtErrAt     int         `json:"ext_err_at,omitempty"`  // k-th extender call fails
 	BarWidth     int         `json:"bar_width,omitempty"`
 	NoTag        bool        `json:"no_tag,omitempty"`
+	Builtins     []string    `json:"builtins,omitempty"` // built-in decorators appended: avgeta avgspeed ewmaeta ewmaspeed pct counters elapsed name spinner
 }
 
 // Step is one client operation.
